@@ -1,0 +1,20 @@
+//go:build verif
+
+package engine
+
+import (
+	"iter"
+
+	"github.com/hyperjumptech/grule-rule-engine/ast"
+	"github.com/hyperjumptech/grule-rule-engine/pkg/simhook"
+)
+
+// kbView is a KnowledgeBase whose RuleEntries are ranged in simulator-chosen order.
+type kbView struct {
+	*ast.KnowledgeBase
+	RuleEntries iter.Seq2[string, *ast.RuleEntry]
+}
+
+func simKB(site string, knowledge *ast.KnowledgeBase) kbView {
+	return kbView{KnowledgeBase: knowledge, RuleEntries: simhook.Seq(site, knowledge.RuleEntries)}
+}
